@@ -1,6 +1,467 @@
-//! C03: not implemented yet.
-use crate::util::Args;
-pub fn main(_a: &Args) {
-    eprintln!("c03: not implemented");
-    std::process::exit(2);
+//! C03 — search for panics / aborts / hangs (this part is TESTING, labelled as such in the evidence).
+//!
+//!   c03 run    --tier T --seed S --out DIR      master: spawns workers, one per stream shard,
+//!                                               restarts them after an abort or a hang
+//!   c03 worker <stream> <from> <to> --seed S --out DIR
+//!   c03 one    <stream> <idx> --seed S --out DIR   one case in this process (replay, nesting)
+//!   c03 depth  <kind> <depth>                   deep-nesting probe (exit status tells the parent)
+//!
+//! Every call into norad runs under `catch_unwind` with a panic hook that records message and
+//! source location; a watchdog thread ends the worker when one case takes longer than the limit
+//! (hang); an abort (stack exhaustion) is seen by the master through the exit status.  Cases are
+//! pure functions of (seed, stream, index), so a worker can be restarted after the failing case.
+use crate::util::{Args, Rng};
+use std::io::Write as _;
+use std::path::{Path, PathBuf};
+use std::sync::atomic::{AtomicU64, Ordering};
+use std::sync::Mutex;
+
+#[path = "c03_gen.rs"]
+mod gen;
+
+pub static LAST_PANIC: Mutex<Option<(String, String)>> = Mutex::new(None);
+static CUR_IDX: AtomicU64 = AtomicU64::new(u64::MAX);
+static CUR_START_MS: AtomicU64 = AtomicU64::new(0);
+
+pub const HANG_MS: u64 = 60_000;
+
+fn now_ms() -> u64 {
+    std::time::SystemTime::now().duration_since(std::time::UNIX_EPOCH).map(|d| d.as_millis() as u64).unwrap_or(0)
 }
+
+fn install_hook() {
+    std::panic::set_hook(Box::new(|info| {
+        let loc = info.location().map(|l| format!("{}:{}", l.file(), l.line())).unwrap_or_default();
+        let msg = if let Some(s) = info.payload().downcast_ref::<&str>() {
+            s.to_string()
+        } else if let Some(s) = info.payload().downcast_ref::<String>() {
+            s.clone()
+        } else {
+            "panic".to_string()
+        };
+        if let Ok(mut g) = LAST_PANIC.lock() {
+            *g = Some((msg, loc));
+        }
+    }));
+}
+
+/// one panic observed inside one guarded call
+#[derive(Clone, Debug)]
+pub struct PanicRec {
+    pub entry: String,
+    pub msg: String,
+    pub loc: String,
+}
+
+/// what one case did
+#[derive(Default)]
+pub struct CaseLog {
+    pub calls: u32,
+    pub ok: u32,
+    pub err: u32,
+    pub documented: u32,
+    pub panics: Vec<PanicRec>,
+    /// class tags computed from the INPUT (never from the outcome)
+    pub tags: Vec<String>,
+    /// while set, guarded calls still run (under catch_unwind) but leave no trace (used to skip
+    /// operations of a history when shrinking)
+    pub mute: bool,
+    /// replayable description of the input (history text / file list); bytes go to `files`
+    pub desc: String,
+    pub files: Vec<(String, Vec<u8>)>,
+    pub hash: u64,
+    /// the first entry point accepted the input, so later stages (encode/save/reload) ran
+    pub deep: bool,
+    pub entries: Vec<(String, u8)>, // (entry point, 0 ok / 1 err / 2 panic / 3 documented panic)
+}
+
+impl CaseLog {
+    /// run `f` under catch_unwind; Ok/Err classification through `is_ok`
+    pub fn guard<T>(&mut self, entry: &str, f: impl FnOnce() -> T, is_ok: impl Fn(&T) -> bool) -> Option<T> {
+        if self.mute {
+            return std::panic::catch_unwind(std::panic::AssertUnwindSafe(f)).ok();
+        }
+        self.calls += 1;
+        if let Ok(mut g) = LAST_PANIC.lock() {
+            *g = None;
+        }
+        match std::panic::catch_unwind(std::panic::AssertUnwindSafe(f)) {
+            Ok(v) => {
+                if is_ok(&v) {
+                    self.ok += 1;
+                    self.entries.push((entry.to_string(), 0));
+                } else {
+                    self.err += 1;
+                    self.entries.push((entry.to_string(), 1));
+                }
+                Some(v)
+            }
+            Err(_) => {
+                let (msg, loc) = LAST_PANIC.lock().ok().and_then(|g| g.clone()).unwrap_or_default();
+                self.panics.push(PanicRec { entry: entry.to_string(), msg, loc });
+                self.entries.push((entry.to_string(), 2));
+                None
+            }
+        }
+    }
+    /// a call that is DOCUMENTED to panic exactly when `must_panic`; anything else is recorded
+    pub fn guard_documented<T>(&mut self, entry: &str, must_panic: bool, f: impl FnOnce() -> T) -> Option<T> {
+        self.calls += 1;
+        if let Ok(mut g) = LAST_PANIC.lock() {
+            *g = None;
+        }
+        match std::panic::catch_unwind(std::panic::AssertUnwindSafe(f)) {
+            Ok(v) => {
+                if must_panic {
+                    // documented to panic but returned: not a totality problem; count as ok
+                }
+                self.ok += 1;
+                self.entries.push((entry.to_string(), 0));
+                Some(v)
+            }
+            Err(_) => {
+                let (msg, loc) = LAST_PANIC.lock().ok().and_then(|g| g.clone()).unwrap_or_default();
+                if must_panic {
+                    self.documented += 1;
+                    self.entries.push((entry.to_string(), 3));
+                } else {
+                    self.panics.push(PanicRec { entry: entry.to_string(), msg, loc });
+                    self.entries.push((entry.to_string(), 2));
+                }
+                None
+            }
+        }
+    }
+    pub fn tag(&mut self, t: &str) {
+        if !self.tags.iter().any(|x| x == t) {
+            self.tags.push(t.to_string());
+        }
+    }
+}
+
+pub fn fnv(data: &[u8]) -> u64 {
+    let mut h: u64 = 0xcbf29ce484222325;
+    for b in data {
+        h ^= *b as u64;
+        h = h.wrapping_mul(0x100000001b3);
+    }
+    h
+}
+
+pub fn case_rng(seed: u64, stream: &str, idx: u64) -> Rng {
+    let mut r = Rng::new(seed ^ fnv(stream.as_bytes()).rotate_left(17) ^ idx.wrapping_mul(0x9E37_79B9_7F4A_7C15));
+    r.next();
+    r
+}
+
+fn repo_root() -> PathBuf {
+    // the checkout the harness was built against (the driver passes VERIF_REPO when it is not /repo)
+    PathBuf::from(std::env::var("VERIF_REPO").unwrap_or_else(|_| "/repo".to_string()))
+}
+
+fn json_str(s: &str) -> String {
+    serde_json::to_string(s).unwrap_or_else(|_| "\"?\"".into())
+}
+
+fn record_json(stream: &str, idx: u64, log: &CaseLog, p: &PanicRec) -> String {
+    let mut d = log.desc.clone();
+    if d.len() > 6000 {
+        let mut cut = 6000;
+        while !d.is_char_boundary(cut) {
+            cut -= 1;
+        }
+        d.truncate(cut);
+        d.push_str(" ...[truncated]");
+    }
+    format!(
+        "{{\"kind\":\"panic\",\"stream\":{},\"idx\":{},\"entry\":{},\"msg\":{},\"loc\":{},\"tags\":[{}],\"input\":{}}}",
+        json_str(stream),
+        idx,
+        json_str(&p.entry),
+        json_str(&p.msg),
+        json_str(&p.loc),
+        log.tags.iter().map(|t| json_str(t)).collect::<Vec<_>>().join(","),
+        json_str(&d)
+    )
+}
+
+// ------------------------------------------------------------------------------------ worker
+fn worker(a: &Args) {
+    let stream = a.extra.get(1).cloned().unwrap_or_default();
+    let from: u64 = a.extra.get(2).and_then(|s| s.parse().ok()).unwrap_or(0);
+    let to: u64 = a.extra.get(3).and_then(|s| s.parse().ok()).unwrap_or(0);
+    let tag = format!("{}_{}", stream, a.extra.get(4).cloned().unwrap_or_else(|| "0".into()));
+    install_hook();
+    let work = a.out.join(format!("work_{}", tag));
+    let _ = std::fs::create_dir_all(&work);
+    let mut res = std::fs::OpenOptions::new().create(true).append(true).open(a.out.join(format!("res_{}.jsonl", tag))).expect("res file");
+    let mut hashes = std::fs::OpenOptions::new().create(true).append(true).open(a.out.join(format!("hash_{}.txt", tag))).expect("hash file");
+    let progress = a.out.join(format!("progress_{}", tag));
+    // watchdog
+    {
+        let resp = a.out.join(format!("res_{}.jsonl", tag));
+        let st = stream.clone();
+        std::thread::spawn(move || loop {
+            std::thread::sleep(std::time::Duration::from_millis(500));
+            let idx = CUR_IDX.load(Ordering::SeqCst);
+            let t0 = CUR_START_MS.load(Ordering::SeqCst);
+            if idx != u64::MAX && now_ms().saturating_sub(t0) > HANG_MS {
+                if let Ok(mut f) = std::fs::OpenOptions::new().append(true).open(&resp) {
+                    let _ = writeln!(f, "{{\"kind\":\"hang\",\"stream\":{},\"idx\":{},\"limit_ms\":{}}}", json_str(&st), idx, HANG_MS);
+                }
+                std::process::exit(3);
+            }
+        });
+    }
+    let mut env = gen::Env::new(&repo_root(), &work);
+    let mut tot = Totals::default();
+    for idx in from..to {
+        let _ = std::fs::write(&progress, idx.to_string());
+        CUR_START_MS.store(now_ms(), Ordering::SeqCst);
+        CUR_IDX.store(idx, Ordering::SeqCst);
+        let mut log = CaseLog::default();
+        let mut rng = case_rng(a.seed, &stream, idx);
+        gen::run_case(&mut env, &stream, idx, &mut rng, &mut log, false);
+        CUR_IDX.store(u64::MAX, Ordering::SeqCst);
+        tot.add(&log);
+        let _ = writeln!(hashes, "{:016x} {}", log.hash, if log.deep { 1 } else { 0 });
+        for p in &log.panics {
+            let _ = writeln!(res, "{}", record_json(&stream, idx, &log, p));
+        }
+    }
+    let _ = writeln!(res, "{}", tot.json(&stream, from, to));
+    let _ = std::fs::remove_dir_all(&work);
+    let _ = std::fs::write(&progress, "done");
+}
+
+#[derive(Default)]
+struct Totals {
+    cases: u64,
+    calls: u64,
+    ok: u64,
+    err: u64,
+    documented: u64,
+    panics: u64,
+    deep: u64,
+    entries: std::collections::BTreeMap<String, [u64; 4]>,
+    tags: std::collections::BTreeMap<String, u64>,
+}
+impl Totals {
+    fn add(&mut self, l: &CaseLog) {
+        self.cases += 1;
+        self.calls += l.calls as u64;
+        self.ok += l.ok as u64;
+        self.err += l.err as u64;
+        self.documented += l.documented as u64;
+        self.panics += l.panics.len() as u64;
+        self.deep += l.deep as u64;
+        for (e, k) in &l.entries {
+            self.entries.entry(e.clone()).or_insert([0; 4])[*k as usize] += 1;
+        }
+        for t in &l.tags {
+            *self.tags.entry(t.clone()).or_insert(0) += 1;
+        }
+    }
+    fn json(&self, stream: &str, from: u64, to: u64) -> String {
+        let ent = self
+            .entries
+            .iter()
+            .map(|(k, v)| format!("{}:[{},{},{},{}]", json_str(k), v[0], v[1], v[2], v[3]))
+            .collect::<Vec<_>>()
+            .join(",");
+        let tg = self.tags.iter().map(|(k, v)| format!("{}:{}", json_str(k), v)).collect::<Vec<_>>().join(",");
+        format!(
+            "{{\"kind\":\"summary\",\"stream\":{},\"from\":{},\"to\":{},\"cases\":{},\"calls\":{},\"ok\":{},\"err\":{},\"documented_panics\":{},\"panics\":{},\"deep\":{},\"entries\":{{{}}},\"tags\":{{{}}}}}",
+            json_str(stream), from, to, self.cases, self.calls, self.ok, self.err, self.documented, self.panics, self.deep, ent, tg
+        )
+    }
+}
+
+// ------------------------------------------------------------------------------------ one case
+fn one(a: &Args) {
+    let stream = a.extra.get(1).cloned().unwrap_or_default();
+    let idx: u64 = a.extra.get(2).and_then(|s| s.parse().ok()).unwrap_or(0);
+    install_hook();
+    let work = a.out.join("work_one");
+    let _ = std::fs::remove_dir_all(&work);
+    let _ = std::fs::create_dir_all(&work);
+    let mut env = gen::Env::new(&repo_root(), &work);
+    let mut log = CaseLog::default();
+    let mut rng = case_rng(a.seed, &stream, idx);
+    gen::run_case(&mut env, &stream, idx, &mut rng, &mut log, true);
+    println!("CASE stream={} idx={} seed={} calls={} ok={} err={} documented={} panics={} tags={:?}", stream, idx, a.seed, log.calls, log.ok, log.err, log.documented, log.panics.len(), log.tags);
+    for (e, k) in &log.entries {
+        println!("  call {} -> {}", e, ["value", "error value", "PANIC", "documented panic"][*k as usize]);
+    }
+    for p in &log.panics {
+        println!("{}", record_json(&stream, idx, &log, p));
+    }
+    // materialise the input for inspection
+    let inp = a.out.join("input");
+    let _ = std::fs::create_dir_all(&inp);
+    let _ = std::fs::write(inp.join("description.txt"), &log.desc);
+    for (i, (name, bytes)) in log.files.iter().enumerate() {
+        let safe: String = name.chars().map(|c| if c.is_ascii_alphanumeric() || c == '.' || c == '-' { c } else { '_' }).collect();
+        let _ = std::fs::write(inp.join(format!("{:03}_{}", i, safe)), bytes);
+    }
+}
+
+// ------------------------------------------------------------------------------------ a given file / directory
+/// `c03 file <path> [tag ...]`: run the entry point that fits the path (a .glif, a .designspace, a
+/// UFO directory) and the follow-up calls; used for the committed corpus and for replays
+fn file(a: &Args) {
+    let path = PathBuf::from(a.extra.get(1).cloned().unwrap_or_default());
+    install_hook();
+    let work = a.out.join("work_file");
+    let _ = std::fs::remove_dir_all(&work);
+    let _ = std::fs::create_dir_all(&work);
+    let mut log = CaseLog::default();
+    for t in a.extra.iter().skip(2) {
+        log.tag(t);
+    }
+    log.desc = format!("file {}", path.display());
+    let mut rng = case_rng(a.seed, "file", 0);
+    gen::file_case(&path, &work, &mut rng, &mut log);
+    let _ = std::fs::remove_dir_all(&work);
+    println!("CASE file={} calls={} ok={} err={} panics={} tags={:?}", path.display(), log.calls, log.ok, log.err, log.panics.len(), log.tags);
+    for (e, k) in &log.entries {
+        println!("  call {} -> {}", e, ["value", "error value", "PANIC", "documented panic"][*k as usize]);
+    }
+    for p in &log.panics {
+        println!("{}", record_json("file", 0, &log, p));
+    }
+}
+
+/// `c03 witness <finding id>`: the minimal API history of a known finding, written out by hand
+fn witness(a: &Args) {
+    let id = a.extra.get(1).cloned().unwrap_or_default();
+    install_hook();
+    let work = a.out.join("work_witness");
+    let _ = std::fs::remove_dir_all(&work);
+    let _ = std::fs::create_dir_all(&work);
+    let mut log = CaseLog::default();
+    gen::witness_case(&id, &work, &mut log);
+    let _ = std::fs::remove_dir_all(&work);
+    println!("CASE witness={} calls={} ok={} err={} panics={} tags={:?}", id, log.calls, log.ok, log.err, log.panics.len(), log.tags);
+    println!("HISTORY {}", log.desc);
+    for (e, k) in &log.entries {
+        println!("  call {} -> {}", e, ["value", "error value", "PANIC", "documented panic"][*k as usize]);
+    }
+    for p in &log.panics {
+        println!("{}", record_json("witness", 0, &log, p));
+    }
+}
+
+// ------------------------------------------------------------------------------------ depth probe
+fn depth(a: &Args) {
+    let kind = a.extra.get(1).cloned().unwrap_or_default();
+    let d: usize = a.extra.get(2).and_then(|s| s.parse().ok()).unwrap_or(10);
+    install_hook();
+    let work = a.out.join(format!("work_depth_{}_{}", kind, d));
+    let _ = std::fs::create_dir_all(&work);
+    let mut log = CaseLog::default();
+    gen::depth_case(&kind, d, &work, &mut log);
+    let _ = std::fs::remove_dir_all(&work);
+    println!("DEPTH kind={} depth={} calls={} ok={} err={} panics={}", kind, d, log.calls, log.ok, log.err, log.panics.len());
+    for p in &log.panics {
+        println!("{}", record_json("nest", d as u64, &log, p));
+    }
+    std::process::exit(if log.panics.is_empty() { 0 } else { 4 });
+}
+
+// ------------------------------------------------------------------------------------ master
+fn counts(tier: &str) -> Vec<(&'static str, u64)> {
+    if tier == "extended" {
+        // the search that runs when an anchor / proof obligation is broken and the quick search found nothing
+        return vec![("glif", 60_000), ("ufo", 20_000), ("ds", 10_000), ("api", 40_000), ("names", 40_000), ("values", 60_000)];
+    }
+    if tier == "thorough" {
+        vec![("glif", 900_000), ("ufo", 240_000), ("ds", 200_000), ("api", 260_000), ("names", 400_000), ("values", 400_000)]
+    } else {
+        vec![("glif", 9_000), ("ufo", 3_000), ("ds", 2_000), ("api", 3_000), ("names", 3_000), ("values", 4_000)]
+    }
+}
+
+fn master(a: &Args) {
+    let exe = std::env::current_exe().expect("exe");
+    let nshard: u64 = std::env::var("C03_WORKERS").ok().and_then(|s| s.parse().ok()).unwrap_or(8);
+    let mut jobs: Vec<(String, u64, u64, String)> = vec![];
+    for (s, n) in counts(&a.tier) {
+        let per = (n + nshard - 1) / nshard;
+        for k in 0..nshard {
+            let from = k * per;
+            let to = ((k + 1) * per).min(n);
+            if from < to {
+                jobs.push((s.to_string(), from, to, format!("{}", k)));
+            }
+        }
+    }
+    // run at most `nshard` workers at a time
+    let jobs = std::sync::Arc::new(Mutex::new(jobs));
+    let mut handles = vec![];
+    for _ in 0..nshard {
+        let jobs = jobs.clone();
+        let exe = exe.clone();
+        let out = a.out.clone();
+        let seed = a.seed;
+        handles.push(std::thread::spawn(move || loop {
+            let job = jobs.lock().unwrap().pop();
+            let Some((stream, mut from, to, tag)) = job else { break };
+            while from < to {
+                let st = std::process::Command::new(&exe)
+                    .args(["c03", "--seed", &seed.to_string(), "--out"])
+                    .arg(&out)
+                    .args(["worker", &stream, &from.to_string(), &to.to_string(), &tag])
+                    .stdout(std::process::Stdio::null())
+                    .stderr(std::process::Stdio::null())
+                    .status();
+                let prog = std::fs::read_to_string(out.join(format!("progress_{}_{}", stream, tag))).unwrap_or_default();
+                if prog == "done" {
+                    break;
+                }
+                let at: u64 = prog.trim().parse().unwrap_or(from);
+                let code = st.as_ref().ok().and_then(|s| s.code());
+                if code != Some(3) {
+                    // not the watchdog: an abort (signal) or an unexpected exit
+                    use std::os::unix::process::ExitStatusExt;
+                    let sig = st.as_ref().ok().and_then(|s| s.signal());
+                    if let Ok(mut f) = std::fs::OpenOptions::new().create(true).append(true).open(out.join(format!("res_{}_{}.jsonl", stream, tag))) {
+                        let _ = writeln!(f, "{{\"kind\":\"abort\",\"stream\":{},\"idx\":{},\"exit_code\":{},\"signal\":{}}}", json_str(&stream), at,
+                            code.map(|c| c.to_string()).unwrap_or_else(|| "null".into()), sig.map(|c| c.to_string()).unwrap_or_else(|| "null".into()));
+                    }
+                }
+                // the cases before `at` of this run are lost from the summary: note the restart
+                if let Ok(mut f) = std::fs::OpenOptions::new().create(true).append(true).open(out.join(format!("res_{}_{}.jsonl", stream, tag))) {
+                    let _ = writeln!(f, "{{\"kind\":\"restart\",\"stream\":{},\"from\":{},\"stopped_at\":{}}}", json_str(&stream), from, at);
+                }
+                from = at + 1;
+            }
+        }));
+    }
+    for h in handles {
+        let _ = h.join();
+    }
+    println!("MASTER done");
+}
+
+pub fn main(a: &Args) {
+    match a.extra.first().map(|s| s.as_str()) {
+        Some("run") => master(a),
+        Some("worker") => worker(a),
+        Some("one") => one(a),
+        Some("depth") => depth(a),
+        Some("file") => file(a),
+        Some("witness") => witness(a),
+        Some("corr") => {
+            install_hook();
+            gen::corr(a.seed, a.thorough(), &a.out)
+        }
+        _ => {
+            eprintln!("usage: c03 run|worker|one|depth ...");
+            std::process::exit(2);
+        }
+    }
+}
+
+#[allow(dead_code)]
+fn _unused(_: &Path) {}
